@@ -223,4 +223,100 @@ theorem every_edge_is_read_false_at_witness :
   revert this
   decide
 
+/-! ## Non-vacuity (review): every hypothesis of the theorems above at a two-equation program
+
+`Y = C + exp({a} * Y[-1])` and `C = Y[1] if <e> > 0 else X[-12]` (the statements of `exStmts`). -/
+
+def rvS1 : List (Tok SAtom) :=
+  [.atom ⟨.var, "Y", .rel 0⟩, .chunk "=", .atom ⟨.var, "C", .rel 0⟩, .chunk "+", .func "exp", .chunk "(",
+   .atom ⟨.param, "a", .rel 0⟩, .chunk "*", .atom ⟨.var, "Y", .rel (-1)⟩, .chunk ")"]
+def rvS2 : List (Tok SAtom) :=
+  [.atom ⟨.var, "C", .rel 0⟩, .chunk "=", .atom ⟨.var, "Y", .rel 1⟩, .kw "if", .atom ⟨.error, "e", .rel 0⟩,
+   .chunk ">", .chunk "0", .kw "else", .atom ⟨.var, "X", .rel (-12)⟩]
+def rvStmts : List (List (Tok SAtom)) := [rvS1, rvS2]
+def rvEq1 : Equation SAtom :=
+  ⟨⟨.var, "Y", .rel 0⟩, .bin .add (.atom ⟨.var, "C", .rel 0⟩)
+    (.call "exp" (.cons (.bin .mul (.atom ⟨.param, "a", .rel 0⟩) (.atom ⟨.var, "Y", .rel (-1)⟩)) .nil))⟩
+def rvEq2 : Equation SAtom :=
+  ⟨⟨.var, "C", .rel 0⟩, .ite (.atom ⟨.var, "Y", .rel 1⟩) (.bin .gt (.atom ⟨.error, "e", .rel 0⟩) (.num "0"))
+    (.atom ⟨.var, "X", .rel (-12)⟩)⟩
+theorem rvParse1 : parseStmt rvS1 = some rvEq1 := rfl
+theorem rvParse2 : parseStmt rvS2 = some rvEq2 := rfl
+theorem rvWF : WellFormed rvStmts := by
+  intro ts hts
+  simp only [rvStmts, List.mem_cons, List.not_mem_nil, or_false] at hts
+  rcases hts with rfl | rfl
+  · exact ⟨_, rvParse1⟩
+  · exact ⟨_, rvParse2⟩
+
+-- edges_of_stmt: `h`; graph_edges_spec / graph_lhs_nodes / graph_edges_of_script: `hwf`
+example : (Node.term (⟨.var, "Y", .rel (-1)⟩ : SAtom), Node.term (⟨.var, "Y", .rel 0⟩ : SAtom)) ∈ edgesOfEq rvS1 :=
+  (edges_of_stmt rvParse1 _ _).2 ⟨rfl, by decide⟩
+example : (Node.term (.slot "X" (.minus 12)), Node.term (.slot "C" .zero)) ∈ graphEdges (rvStmts.map eqForm) :=
+  (graph_edges_of_script rvStmts rvWF _ _).2 ⟨rvS2, by simp [rvStmts], rvEq2, rvParse2, rfl, ⟨.var, "X", .rel (-12)⟩, by decide, rfl⟩
+example : (Node.term (⟨.var, "C", .rel 0⟩ : SAtom), some rvS2) ∈ graphNodes rvStmts :=
+  (graph_lhs_nodes rvStmts rvWF _ _).2 ⟨by simp [rvStmts], rvEq2, rvParse2, rfl⟩
+
+/-- Integer arithmetic as the operator interpretation. -/
+def rvOps : Ops Int :=
+  { lit := fun _ => 0, verb := fun _ => 0, neg := fun x => -x, not := fun x => if x = 0 then 1 else 0,
+    bin := fun op x y => match op with
+      | .add => x + y | .sub => x - y | .mul => x * y | .gt => if x > y then 1 else 0 | _ => 0,
+    truthy := fun x => x ≠ 0, call := fun _ args => args.foldl (· + ·) 0 }
+
+-- coincidence: `h` (two environments that differ outside the terms of `Y`'s right-hand side)
+example : denote rvOps (fun a : SAtom => if a.name = "X" then 7 else 2) rvEq1.rhs =
+    denote rvOps (fun a : SAtom => if a.name = "X" then 9 else 2) rvEq1.rhs :=
+  coincidence rvOps _ _ _ (by decide)
+
+-- no_edge_no_influence: hwf, hts, heq, hrel, hne, hs — `Y[t+1]` has no edge into `Y` (only `Y[t-1]` has): two stores
+-- that differ in the cell (Y, t+1) only give `Y`'s equation the same value
+def rvStore1 : Store Int := fun _ j => j
+def rvStore2 : Store Int := fun y j => if y = "Y" ∧ j = 5 + 1 then 99 else j
+example : rvStore1 "Y" 6 ≠ rvStore2 "Y" 6 := by decide
+example : denote (scriptOps rvOps) (readSpec rvStore1 5 (fun _ => 0)) rvEq1.rhs =
+    denote (scriptOps rvOps) (readSpec rvStore2 5 (fun _ => 0)) rvEq1.rhs :=
+  no_edge_no_influence rvOps (fun _ => 0) 5 rvStmts rvWF rvS1 (by simp [rvStmts]) rvEq1 rvParse1 "Y" 1
+    (by
+      intro a ha _
+      have ht : rvEq1.rhs.terms = [⟨.var, "C", .rel 0⟩, ⟨.param, "a", .rel 0⟩, ⟨.var, "Y", .rel (-1)⟩] := by decide
+      rw [ht] at ha
+      simp only [List.mem_cons, List.not_mem_nil, or_false] at ha
+      rcases ha with rfl | rfl | rfl <;> exact ⟨_, rfl⟩)
+    (by decide) rvStore1 rvStore2
+    (by intro y j h; simp only [rvStore1, rvStore2]; rw [if_neg h])
+-- … whereas the cell (Y, t-1), which HAS an edge, does influence it
+example : denote (scriptOps rvOps) (readSpec rvStore1 5 (fun _ => 0)) rvEq1.rhs ≠
+    denote (scriptOps rvOps) (readSpec (update rvStore1 "Y" 4 99) 5 (fun _ => 0)) rvEq1.rhs := by decide
+
+-- strict_terms_read: `h`; eager_terms_read at the conditional
+example : reads rvOps (fun _ => 1) rvEq1.rhs = rvEq1.rhs.terms ∧ rvEq1.rhs.terms.length = 3 :=
+  ⟨strict_terms_read rvOps _ _ (by decide), by decide⟩
+example : (⟨.error, "e", .rel 0⟩ : SAtom) ∈ reads rvOps (fun _ => 1) rvEq2.rhs :=
+  eager_terms_read rvOps _ _ _ (by decide)
+
+-- edge_is_read_partial: hwf, hdistinct, hts, heq, hstrict, hedge
+theorem rvDistinct : ∀ ts ∈ rvStmts, ∀ ts' ∈ rvStmts, ∀ eq eq', parseStmt ts = some eq → parseStmt ts' = some eq' →
+    tAtom eq.lhs = tAtom eq'.lhs → ts = ts' := by
+  intro ts hts ts' hts' eq eq' h h' hl
+  simp only [rvStmts, List.mem_cons, List.not_mem_nil, or_false] at hts hts'
+  rcases hts with rfl | rfl <;> rcases hts' with rfl | rfl
+  · rfl
+  · rw [rvParse1] at h; rw [rvParse2] at h'; cases h; cases h'; exact absurd hl (by decide)
+  · rw [rvParse2] at h; rw [rvParse1] at h'; cases h; cases h'; exact absurd hl (by decide)
+  · rfl
+example : ∃ a ∈ reads rvOps (fun _ => 1) rvEq1.rhs, tAtom a = .slot "Y" (.minus 1) :=
+  edge_is_read_partial rvOps _ rvStmts rvWF rvDistinct rvS1 (by simp [rvStmts]) rvEq1 rvParse1 (by decide) _ (by decide)
+
+-- lazy_terms_read_somewhere_partial: both premises for the conditional of `C`'s equation are satisfiable
+def rvThen : Expr SAtom := .atom ⟨.var, "Y", .rel 1⟩
+def rvCond : Expr SAtom := .bin .gt (.atom ⟨.error, "e", .rel 0⟩) (.num "0")
+def rvElse : Expr SAtom := .atom ⟨.var, "X", .rel (-12)⟩
+example : rvEq2.rhs = .ite rvThen rvCond rvElse := rfl
+example : (∃ ρ : SAtom → Int, rvOps.truthy (denote rvOps ρ rvCond) = true) ∧
+    (∃ ρ : SAtom → Int, rvOps.truthy (denote rvOps ρ rvCond) = false) :=
+  ⟨⟨fun _ => 1, by decide⟩, ⟨fun _ => 0, by decide⟩⟩
+example : ∃ ρ, (⟨.var, "X", .rel (-12)⟩ : SAtom) ∈ reads rvOps ρ (.ite rvThen rvCond rvElse) :=
+  (lazy_terms_read_somewhere_partial rvOps rvThen rvCond rvElse).2.1 ⟨fun _ => 0, by decide⟩ _ (by decide)
+
 end Fsic.C20
